@@ -96,7 +96,7 @@ H(getters)    {QState s; MakeState(s); uint32 idx=nondet_u32(); Item r; bool ok 
                CHECK(s.q.IsEmpty()==(s.n==0), "IsEmpty"); CHECK(s.q.IsIndexValid(idx)==(idx<s.n), "IsIndexValid"); CheckState(s); END();}
 H(swap)       {QState s; MakeState(s); ASSUME(s.n > 0); uint32 a=nondet_u32(), b=nondet_u32(); ASSUME((a<s.n)&&(b<s.n)); s.q.Swap(a,b); Item t=s.model[a]; s.model[a]=s.model[b]; s.model[b]=t; CheckState(s); END();}
 H(reverse)    {QState s; MakeState(s); uint32 from=nondet_u32(), to=nondet_u32(); s.q.ReverseItemOrdering(from,to); if (to>s.n) to=s.n; if (to>0) {to--; while(from<to) {Item t=s.model[from]; s.model[from]=s.model[to]; s.model[to]=t; from++; to--;}} CheckState(s); END();}
-H(ensuresize) {QState s; MakeState(s); const uint32 want=ir2c_param_2(); bool setNum = (nondet_u8()&1)!=0; const uint32 extra = ir2c_param_3(); bool allowShrink=(nondet_u8()&1)!=0;
+H(ensuresize) {QState s; MakeState(s); const uint32 want=ir2c_param_2(); const bool setNum = (ir2c_param_4()&1)!=0; const uint32 extra = ir2c_param_3(); const bool allowShrink=(ir2c_param_4()&2)!=0;
                ASSUME(want+extra < MAXN);
                CHECK(s.q.EnsureSize(want, setNum, extra, allowShrink).IsOK(), "EnsureSize succeeds");
                CHECK(s.q.GetNumAllocatedItemSlots() >= want, "capacity reaches the request");
